@@ -1,5 +1,6 @@
 """C15 -- backoff sequences (structural clauses)."""
 import ast
+import copy
 from sa.index import AnalysisError
 from sa.paths import call_name
 from rules.common import Quiet, list_delegation, txt, paths_of, loc, tests_on, strip_not, check_none_default
@@ -20,6 +21,8 @@ SPEC = {
 }
 SPEC['explanation'] += ' T7.jitter: polynomial normal form of every jittered value is b - b*jitter*r for the un-jittered delay b and a single random draw r.'
 SPEC['decided'] += ['jitter formula (polynomial normal form)']
+SPEC['explanation'] += ' T20.nocache: the functions that build a fresh list / dict / generator per call are not memoised.'
+SPEC['decided'] += ['results are fresh per call (no memoising decorator)']
 MANIFEST = {
     'technique': 'must-pass-through / ordering analysis on enumerated CFG paths, comparison canonicalisation, delegation check',
     'text': ('Decides structural necessary conditions of C15: invalid parameters are rejected before anything is yielded, '
@@ -41,6 +44,8 @@ def canon_cmp(e):
 
 
 def run(ctx):
+    from rules.common import check_not_memoised as _cnm
+    _cnm(ctx, [ctx.program.func(n) for n in ['iterutils.backoff', 'iterutils.backoff_iter']])
     prog = ctx.program
     bi = prog.func('iterutils.backoff_iter')
     class HelperInl(Quiet):
@@ -235,5 +240,29 @@ def run(ctx):
     rej = any(isinstance(n, ast.If) and repeat_test(n.test) and any(isinstance(x, ast.Raise) for x in n.body)
               for n in ast.walk(b.node))
     ctx.ob('T17', b.fq, "backoff rejects count='repeat' (a list cannot be endless)", rej, loc=b.loc)
+    # T25.ceil: the default count takes the ceiling of the true logarithm -- nothing rounds the logarithm (round / int / floor / trunc /
+    # a floor division) on its way into ceil(): rounding first swallows a genuine fractional step and the last value falls short of stop
+    def _resolved(e, depth=0):
+        if isinstance(e, ast.Name) and depth < 4:
+            defs = [a.value for a in ast.walk(bi.node) if isinstance(a, ast.Assign) and len(a.targets) == 1 and txt(a.targets[0]) == e.id]
+            if len(defs) == 1 and e.id not in bi.params:
+                return _resolved(defs[0], depth + 1)
+        return e
+    for c in ast.walk(bi.node):
+        if isinstance(c, ast.Call) and (call_name(c) or '').split('.')[-1] == 'ceil' and c.args:
+            a = copy.deepcopy(c.args[0])
+            class _R(ast.NodeTransformer):
+                def visit_Name(self, nd):
+                    r = _resolved(nd)
+                    return copy.deepcopy(r) if r is not nd else nd
+            for _ in range(3):
+                a = _R().visit(a)
+            if not any(isinstance(x, ast.Call) and (call_name(x) or '').split('.')[-1] == 'log' for x in ast.walk(a)):
+                continue
+            rounding = [x for x in ast.walk(a) if (isinstance(x, ast.Call) and (call_name(x) or '').split('.')[-1] in
+                                                    ('round', 'int', 'floor', 'trunc')) or
+                        (isinstance(x, ast.BinOp) and isinstance(x.op, ast.FloorDiv))]
+            ctx.ob('T25.ceil', bi.fq, 'the default count is the ceiling of the un-rounded logarithm of stop/start', not rounding,
+                   loc=loc(bi, c), detail=txt(a)[:120])
     for r, n in (('T9.validate', 1), ('T9.range', 6), ('T7.clamp', 2), ('T17', 2), ('T19c', 1)):
         ctx.need(r, n)
